@@ -531,7 +531,11 @@ def search_failing_input(P, pid, container, ops, diffs, rng, tier):
             h[i] = re.sub(r"\b\d+\b", lambda m: str(rng.choice([0, 1, 2, 3, int(m.group(0)) + 1, max(0, int(m.group(0)) - 1)])), h[i], count=1)
             hs.append(h)
     for lo in range(0, len(hs), 400):
-        for h, ds in runner.run(hs[lo:lo + 400]):
+        try:
+            res = runner.run(hs[lo:lo + 400])
+        except Exception:
+            return None
+        for h, ds in res:
             hard = [d for d in ds if d.layer in ("L1", "L2") and relevant(P, container, d)]
             if hard:
                 return hs[lo + h], hard
